@@ -108,6 +108,7 @@ def run(ctx):
     _lenient(ctx)
     _lookup(ctx, eff)
     _loops(ctx, cones)
+    _concrete(ctx)
     # whatever the composite decoders accept can be written again (parse, then serialise)
     from .. import codecmodel
     codecmodel.report(ctx, "C04/RESERIALISE", codecmodel.explore_reserialise, codecmodel.RESER_LAWS,
@@ -116,6 +117,67 @@ def run(ctx):
 
 # ---------------------------------------------------------------------------
 _NOARG_CALL = ast.parse("self.m()").body[0].value
+
+EV = "BEGIN:VEVENT\r\nSUMMARY:{}\r\nEND:VEVENT\r\n"
+CONCRETE_INPUTS = [
+    ("empty input", ""),
+    ("blank lines only", "\r\n\r\n"),
+    ("no component, long property line", "X-A:" + "y" * 60 + "\r\n"),
+    ("two components, long first line", EV.format("x" * 60) + EV.format("b")),
+    ("two components, short", EV.format("a") + EV.format("b")),
+    ("one event", EV.format("a")),
+    ("calendar with event and todo", "BEGIN:VCALENDAR\r\n" + EV.format("a") + "BEGIN:VTODO\r\nSUMMARY:t\r\nEND:VTODO\r\nEND:VCALENDAR\r\n"),
+    ("END without BEGIN", "END:VEVENT\r\n"),
+    ("unclosed component", "BEGIN:VEVENT\r\nSUMMARY:a\r\n"),
+    ("unsplittable line in an event", "BEGIN:VEVENT\r\nno colon here\r\nSUMMARY:a\r\nEND:VEVENT\r\n"),
+    ("unsplittable line in a todo", "BEGIN:VTODO\r\nno colon here\r\nEND:VTODO\r\n"),
+    ("undecodable value in an event", "BEGIN:VEVENT\r\nDTSTART:not-a-date\r\nPRIORITY:x\r\nSUMMARY:a\r\nEND:VEVENT\r\n"),
+    ("non-ASCII text, long", "BEGIN:VEVENT\r\nSUMMARY:" + "\u00e9\u20ac" * 50 + "\r\nEND:VEVENT\r\n"),
+    ("lower-case names, LF line ends", "begin:vevent\nsummary:a\nend:vevent\n"),
+    ("unknown component and property", "BEGIN:X-THING\r\nX-PROP;X-PAR=1:v\r\nEND:X-THING\r\n"),
+    ("categories ending in a backslash", "BEGIN:VEVENT\r\nCATEGORIES:work,home\\\r\nEND:VEVENT\r\n"),
+]
+
+
+def _concrete(ctx):
+    """The whole parser, nothing stubbed, interpreted (E7) on concrete inputs of every failure
+    class - as str and as bytes, single and multiple: a result or ValueError; whatever is returned
+    serialises and walks."""
+    from ..strmodel import TextInterp
+    from ..absint import ClassVal, AbsRaise, Unsupported, Obj
+    m = ctx.model
+    comp = m.cls("cal.Component")
+    bad = []
+    n = 0
+    for label, text in CONCRETE_INPUTS:
+        for kind, data in (("str", text), ("bytes", text.encode("utf-8"))):
+            for multiple in (False, True):
+                it = TextInterp(m)
+                n += 1
+                where = f"{label} ({kind}, multiple={multiple})"
+                try:
+                    try:
+                        res = it.run(it.getattr(ClassVal(comp), "from_ical"), [data], {"multiple": multiple})
+                    except AbsRaise as e:
+                        if "ValueError" not in it.exc_bases(e.cls_name):
+                            bad.append((where, f"from_ical raises {e.cls_name}"))
+                        continue
+                    for c in (res if isinstance(res, list) else [res]):
+                        if not isinstance(c, Obj):
+                            continue
+                        for meth in ("to_ical", "walk"):
+                            try:
+                                it.run(it.getattr(c, meth), [], {})
+                            except AbsRaise as e:
+                                if "ValueError" not in it.exc_bases(e.cls_name):
+                                    bad.append((where, f"{meth}() of the result raises {e.cls_name}"))
+                except Unsupported as e:
+                    raise AnalysisError(f"the parser leaves the abstract interface on {where}: {e}")
+    ctx.check(not bad, "C04/CONCRETE", "concrete inputs of every failure class: a result or ValueError",
+              f"{bad[0][0] if bad else ''}: {bad[0][1] if bad else ''} "
+              f"[{len(bad)} of {n} runs: {sorted({b[0] for b in bad})[:5]}]", comp.loc(),
+              witness={"input": bad[0][0]} if bad else None,
+              detail=f"{n} runs ({len(CONCRETE_INPUTS)} inputs x str/bytes x single/multiple), whole parser interpreted")
 
 
 def _arity(ctx):
